@@ -8,7 +8,8 @@ Three layers, all run on every check:
         permute.dimensions_csr / dimensions_dense,
         Dimensions._get_tensor_perm / _get_tensor_shape,
         expand_operator (new_order + permute), tensor_swap (flat index map),
-        partial_transpose (dense and sparse method), the reshuffle permutation
+        partial_transpose (dense and sparse method), _one_subsystem_apply (operator
+        channel), the reshuffle permutation
         lists (spy on Qobj.permute; incl. the private Compound branch),
         tensor() of square factors (Kronecker model of the product theorem)
      and a tiny translator (T) re-reads `contract_at` of
@@ -519,13 +520,11 @@ def corr_cases(dist, rng, scale):
             Qobj.permute = orig
 
     for _ in range(6 * scale):
-        ds = []
-        for _k in range(rng.randint(2, 3)):
-            ds.append([rng.choice([2, 2, 3]) for _ in range(rng.randint(1, 3))])
-        while prod([prod(d) for d in ds]) > 8:
-            ds = [d[:1] for d in ds]
-            if prod([prod(d) for d in ds]) > 8:
-                ds = ds[:2]
+        while True:
+            ds = [[rng.choice([2, 2, 2, 3]) for _ in range(rng.randint(1, 3))]
+                  for _k in range(rng.randint(2, 3))]
+            if prod([prod(d) for d in ds]) <= 8:
+                break
         ns = [len(d) for d in ds]
         qs = [Qobj(np.zeros((prod(d) ** 2,) * 2), dims=[[d, d], [d, d]]) for d in ds]
         note_inflight({"op": "private_tos", "params": {"factor_dims": ds}})
@@ -559,6 +558,28 @@ def corr_cases(dist, rng, scale):
                           "nontrivial": len(d) >= 2 and 0 < sum(mask) < len(d),
                           "info": {"dims": d, "mask": mask, "matrix": M, "fmt": fmt}})
             bump("ptranspose:" + method)
+
+    # ---- J. subsystem_apply: _one_subsystem_apply with an operator channel
+    from qutip.core.subsystem_apply import _one_subsystem_apply
+    for _ in range(8 * scale):
+        d = rand_dims(rng, 4, 12)
+        if all(x == 1 for x in d):
+            continue
+        idx = rng.randrange(len(d))
+        Nn = prod(d)
+        M = rand_mat(rng, Nn, Nn, 0.6)
+        U = rand_mat(rng, d[idx], d[idx], 0.9)
+        note_inflight({"op": "subsystem_apply_one", "params": {"dims": d, "idx": idx}})
+        try:
+            out = _one_subsystem_apply(Qobj(to_np(M), dims=[d, d]), Qobj(to_np(U)), idx)
+            arr = out.full()
+            impl = ("ok", from_np(arr)) if exact(arr) else ("inexact",)
+        except Exception as e:
+            impl = ("err", type(e).__name__)
+        expr = "one_subsystem_apply_U %s %d %s %s" % (cnats(d), idx, cmat(U), cmat(M))
+        cases.append({"kind": "subsys_one", "expr": expr, "impl": impl, "nontrivial": len(d) >= 2,
+                      "info": {"dims": d, "idx": idx, "matrix": M, "U": U}})
+        bump("subsys_one")
 
     # ---- F. Kronecker product of square factors: tensor() vs kron_list
     for _ in range(12 * scale):
@@ -601,6 +622,8 @@ def compare_case(c, val):
                 and val[2] is True and list(val[3]) == impl[3] and list(val[4]) == impl[4])
     if k == "reshuffle_sot":
         return impl[0] == "ok" and [list(val[0]), list(val[1])] == impl[1]
+    if k == "subsys_one":
+        return impl[0] == "ok" and gmat(val) == impl[1]
     if k.startswith("ptranspose_"):
         return impl[0] == "ok" and gmat(val) == impl[1]
     if k == "private_tos_compound":
@@ -1625,6 +1648,14 @@ def find_failing(kind, lst):
             tries.append(("reshuffle_composite", pr, None))
         elif kind.startswith("ptranspose_"):
             tries.append(("partial_transpose", info, None))
+        elif kind == "subsys_one":
+            dd = info["dims"]
+            ds_ = dd[info["idx"]]
+            tries.append(("subsystem_apply",
+                          {"dims": dd, "mask": [k2 == info["idx"] for k2 in range(len(dd))],
+                           "dsub": ds_, "matrix": info["matrix"], "U": info["U"], "fmt": "Dense",
+                           "S": [[[1 if r == cc else 0, 0] for cc in range(ds_ * ds_)]
+                                 for r in range(ds_ * ds_)]}, None))
         elif kind == "kron":
             tries.append(("tensor", info, None))
         elif kind == "tensor_perm":
